@@ -43,9 +43,11 @@ def run(c, chk):
                                      'cfg_getopt_secidx', 'cfg_searchpath', 'cfg_tilde_expand'})
     chk.analysed = {'parser_states': len(model.states), 'lexer_rules': dfa.num_rules}
 
+    ALIAS = {'cfg_getopt': 'cfg_getopt_secidx'}       # the by-name lookup the parser uses, when it is a function of its own
+
     def allowed(fn, cond):
         for a in allow:
-            if a['function'] == fn and a['condition'] == cond:
+            if a['function'] in (fn, ALIAS.get(fn)) and a['condition'] == cond:
                 return a
         return None
 
@@ -112,7 +114,11 @@ def run(c, chk):
 
     n1 = judge('cfg_setopt', lambda v: v == sym.C0)
     gfn = c.need('cfg_getopt_secidx')
-    n2 = judge('cfg_getopt_secidx', lambda v: v == sym.C0, filt=flag_off, env={gfn.params[2].name: sym.C0})
+    if any(True for _ in c.need('cfg_getopt').calls('cfg_getopt_secidx')):
+        n2 = judge('cfg_getopt_secidx', lambda v: v == sym.C0, filt=flag_off, env={gfn.params[2].name: sym.C0})
+    else:
+        # the lookup the parser calls is a function of its own (it shares the section walk with the index variant)
+        n2 = judge('cfg_getopt', lambda v: v == sym.C0, filt=flag_off)
     n3 = judge('call_function', lambda v: v != sym.C0)
     n4 = judge('cfg_include', lambda v: v != sym.C0)
     chk.floor('R6.1 failing paths of cfg_setopt', n1, 50)
